@@ -3,6 +3,7 @@ From Coq Require Import String.
 From Coq Require Import List Bool Arith NArith ZArith Lia.
 Import ListNotations.
 Require Import PPCore PPHost Memo MemoProofs Pinned Str Mask IpModel.
+Require TextModel.
 
 (* _is_mask accepts exactly the 33 + 33 values "k low ones" / "ones from bit k up", for ALL 2^32 inputs *)
 Theorem C05_is_mask_iff_mask_or_wildcard_shape :
@@ -48,6 +49,17 @@ Example C05_instances :
                                   || is_mask (N.lxor (low_ones (N.of_nat k)) (2 ^ N.of_nat i))) (seq 0 32)) (seq 0 33) = true.
 Proof. vm_compute. repeat split; reflexivity. Qed.
 
+
+(* "appear in the output exactly as written": at text level, the callback the IPv4 pass runs on a matched token returns the matched text itself -- not a
+   re-printed address, so leading zeros and every other detail of the spelling stay -- and leaves the anonymizer untouched whenever the token parses to a
+   value that is mask- or wildcard-shaped or lies in a preserved network; for every token, state and direction (anonymize / undo) *)
+Theorem C05_masks_and_preserved_addresses_are_left_exactly_as_written :
+  forall (undo : bool) (a : IpModel.anonymizer) (m : Str.str) (x : N),
+  TextModel.make_addr4 m = Some x -> IpModel.should_anonymize4 a x = false ->
+  TextModel.ip_match false undo (TextModel.Done a) m = (TextModel.Done a, m).
+Proof. intros undo a m x E S. unfold TextModel.ip_match. rewrite E, S. reflexivity. Qed.
+
 Print Assumptions C05_is_mask_iff_mask_or_wildcard_shape.
 Print Assumptions C05_skip_iff_mask_or_preserved.
 Print Assumptions C05_no_collision_with_preserved_networks.
+Print Assumptions C05_masks_and_preserved_addresses_are_left_exactly_as_written.
